@@ -259,13 +259,21 @@ Definition check_case (c : case) : bool * bool :=
    model runs with fix A (resp. fix B, resp. both)?  Used only to tell known findings from new violations. *)
 Definition with_fixes (cfg : config) (a b : bool) : config :=
   {| c_pol := c_pol cfg; c_table := c_table cfg; c_defproto := c_defproto cfg; c_src := c_src cfg; c_grace := c_grace cfg;
-     c_fixA := a; c_fixB := b |}.
+     c_fixA := a; c_fixB := b; c_fixC := c_fixC cfg |}.
 Definition fixed_ok (c : case) (a b : bool) : bool :=
   ok_history (c_cfg c) (c_ops c) (run (with_fixes (c_cfg c) a b) (c_ops c) (st0, env0)).
 Definition classify_case (c : case) : bool * bool :=
   if fixed_ok c true true
   then (fixed_ok c true (c_fixB (c_cfg c)), fixed_ok c (c_fixA (c_cfg c)) true)
   else (true, true).   (* not explained by the known findings *)
+
+(* third known finding (stale interface state after a renumbering): does the history satisfy the oracle when the model
+   runs with fix C? *)
+Definition with_fixC (cfg : config) : config :=
+  {| c_pol := c_pol cfg; c_table := c_table cfg; c_defproto := c_defproto cfg; c_src := c_src cfg; c_grace := c_grace cfg;
+     c_fixA := c_fixA cfg; c_fixB := c_fixB cfg; c_fixC := true |}.
+Definition fixedC_ok (c : case) : bool :=
+  ok_history (c_cfg c) (c_ops c) (run (with_fixC (c_cfg c)) (c_ops c) (st0, env0)).
 
 (* short constructors used by the harness when it prints a case *)
 Definition rk (c p : N) : rkey := (c, p).
@@ -279,6 +287,6 @@ Definition kt (c p : N) (t : target) : rkey * target := ((c, p), t).
 Definition kr (t c p : N) (r : kroute) : kkey * kroute := ((t, (c, p)), r).
 Definition pl (o : nlop) (n : N) (f : fkind) : nlop * N * fkind := (o, n, f).
 Definition ob (err : bool) (l : list (kkey * kroute)) : obs := (err, l).
-Definition mkcfg (p : policy) (table defproto src grace : N) (fixA fixB : bool) : config :=
-  {| c_pol := p; c_table := table; c_defproto := defproto; c_src := src; c_grace := grace; c_fixA := fixA; c_fixB := fixB |}.
+Definition mkcfg (p : policy) (table defproto src grace : N) (fixA fixB fixC : bool) : config :=
+  {| c_pol := p; c_table := table; c_defproto := defproto; c_src := src; c_grace := grace; c_fixA := fixA; c_fixB := fixB; c_fixC := fixC |}.
 Definition mkcase (cfg : config) (ops : list op) (o : list obs) : case := {| c_cfg := cfg; c_ops := ops; c_obs := o |}.
